@@ -122,7 +122,7 @@ class C01(Prop):
         res = ctx.get("results", {})
         inside = sum(1 for (_c, k) in res.values() if k & (1 << 40))
         ctx["cov"]["theorem_fragment"] = {"cases_inside_fragment": inside, "cases_evaluated": len(ctx.get("descs", {})),
-                                          "fragment": "no function expressions; declared names are not `...` (Scope/Fragment.v ok_block)"}
+                                          "fragment": "every program whose declared names are not literally `...` (Scope/GFragment.v gok_block)"}
         return []
 
 
